@@ -1,5 +1,6 @@
 """C09 — wire encoding is lossless and canonical: structural necessary conditions (the value-level round trip is not decided)."""
 from engine import query as Q
+from . import common
 from engine.terms import show, subterms
 from engine.guards import Atom, Walker, field_path, chain, Inliner
 
@@ -27,7 +28,7 @@ def impls(ctx, kind):
 
 
 def family(ctx, g):
-    return [g] + [h for h in ctx.F.fns if h.parent is not None and root_fn(h) is g]
+    return common.family(ctx, g, ("coroutine", "closure", "fn", "method"), include_top=True)
 
 
 def proto_fields_read(ctx, g):
